@@ -34,6 +34,7 @@ func checkC16(p *Prog, r *Report) {
 	r.rule("C16.T5", "decode is reached only from the typeData/typeParity arm of kcpInput, on a decoder that exists (lazy creation with a valid ratio)", 2)
 	r.rule("C16.T6", "a mismatch is harmless: data packets bypass the decoder (C07.F8); recovered packets are size-checked (C07.F3)", 2)
 	r.rule("C16.T7", "the sample window holds at least (largest accepted d+p) + 2 samples", 1)
+	r.rule("C16.T9", "the newest group id (counted in units of shardSize, compared by signed difference) is meaningful before it is compared: the update newestShardId = <group of this packet> is taken unconditionally for the first packet after construction and after a retune — its condition is a disjunction with a 'not yet set' flag of the decoder that the update sets and every store to shardSize outside the constructor is followed by clearing (or newestShardId itself is re-stored there). Otherwise the first real id can compare as 'older' than the stale/zero value, the value never moves and discardShards throws away every freshly stored shard: nothing is recovered 'from then on'", 2)
 	r.rule("C16.T8", "a matching sender never produces a mismatch: types follow positions (C07.F7), ids advance modulo a multiple of the group size (C12.K5)", 4)
 
 	fi := p.FuncOf(p.Method("fecDecoder", "decode"))
@@ -49,6 +50,7 @@ func checkC16(p *Prog, r *Report) {
 
 	// ---- T1
 	falseStores := checkTuneEvidence(p, r, "C16.T1")
+	checkNewestGroupInit(p, r, "C16.T9")
 
 	// ---- T2
 	params := []string{"dataShards", "parityShards", "shardSize", "codec", "paws", "decodeCache", "flagCache", "shardSet"}
@@ -721,4 +723,147 @@ func checkTuneEvidence(p *Prog, r *Report, ruleT1 string) []FieldStore {
 	}
 
 	return falseStores
+}
+
+// checkNewestGroupInit: C16.T9 (shared with C12.K7 and C07.F13).
+func checkNewestGroupInit(p *Prog, r *Report, rule string) {
+	dec := p.FuncOf(p.Method("fecDecoder", "decode"))
+	c := p.CFG(dec)
+	fNewest := p.Field("fecDecoder", "newestShardId")
+	fSize := p.Field("fecDecoder", "shardSize")
+	self := tVar(p.selfVar(dec))
+	// (1) the update site and its 'not yet set' flag
+	var flag *types.Var
+	nUpd := 0
+	for _, st := range p.FieldStores(fNewest) {
+		if st.InLit || st.Rhs == nil {
+			continue
+		}
+		root := rootFuncInfo(st.Fn)
+		if root != dec {
+			continue
+		}
+		pt, ok := c.PointOf(st.Node)
+		if !ok {
+			continue
+		}
+		// a re-store inside the tuning region is the other accepted form (handled under (2))
+		if t := p.Term(st.Rhs); t.IsConst() {
+			continue
+		}
+		nUpd++
+		conds := c.localDominatingConds(pt)
+		okFirst := false
+		why := "the update is conditional on the signed comparison with the old value alone"
+		// only the conditions of the update's own if: those whose branching block's other edge skips the store
+		var own []*Term
+		for _, ca := range c.DominatingCondsAt(pt) {
+			if ca.B == nil {
+				continue
+			}
+			mentions := false
+			ca.T.Walk(func(t *Term) {
+				if t.Op == "fld" && t.Obj == fNewest {
+					mentions = true
+				}
+			})
+			if mentions {
+				own = append(own, ca.T)
+			}
+		}
+		_ = conds
+		if len(own) == 0 {
+			okFirst = true // unconditional (or not compared with the old value at all)
+		}
+		for _, ct := range own {
+			ds := []*Term{ct}
+			if ct.Op == "||" {
+				ds = ct.Args
+			}
+			for _, d := range ds {
+				if d.Op == "not" && d.Args[0].Op == "fld" && d.Args[0].Args[0].Key() == self.Key() {
+					if fv, isV := d.Args[0].Obj.(*types.Var); isV {
+						if b, isB := fv.Type().Underlying().(*types.Basic); isB && b.Kind() == types.Bool {
+							flag = fv
+							okFirst = true
+						}
+					}
+				}
+			}
+		}
+		// the flag is set together with the update
+		if okFirst && flag != nil {
+			set := false
+			for _, fs := range p.FieldStores(flag) {
+				if fs.Fn == st.Fn && fs.Rhs != nil && p.Term(fs.Rhs).Op == "true" {
+					if fp, okF := c.PointOf(fs.Node); okF && fp.B == pt.B {
+						set = true
+					}
+				}
+			}
+			if !set {
+				okFirst, why = false, "the 'not yet set' flag "+flag.Name()+" is not set where newestShardId is taken from a packet"
+			}
+		}
+		r.check(okFirst, rule, st.Fn.Name, p.Pos(st.Node), "first packet sets newestShardId", "if !<set> || _itimediff(group, newest) > 0 { newest = group; <set> = true }", why+": before the first packet (value 0) and after a retune (value in units of the old group size) the first real group id can compare as older — it never becomes the newest, and discardShards discards every shard just stored (no recovery until the ids catch up or wrap)")
+	}
+	if nUpd == 0 {
+		r.bad(rule, dec.Name, p.Pos(dec.Node), "first packet sets newestShardId", "decode never records the newest group", "")
+		return
+	}
+	// (2) every store to shardSize outside the constructor invalidates the value
+	n := 0
+	for _, st := range p.FieldStores(fSize) {
+		if st.InLit || st.Fn.Name == "newFECDecoder" {
+			continue
+		}
+		n++
+		cc := p.CFG(st.Fn)
+		pt, _ := cc.PointOf(st.Node)
+		inval := func(nd ast.Node, _ Point) bool {
+			as, ok := nd.(*ast.AssignStmt)
+			if !ok {
+				return false
+			}
+			for i, l := range as.Lhs {
+				lt := p.Term(l)
+				if lt.Op != "fld" || i >= len(as.Rhs) {
+					continue
+				}
+				if lt.Obj == fNewest {
+					return true
+				}
+				if flag != nil && lt.Obj == flag && p.Term(as.Rhs[i]).Op == "false" {
+					return true
+				}
+			}
+			return false
+		}
+		// (paths that leave through the failure of the codec constructor — `if err != nil { return }` — abandon the retune)
+		errEdge := func(from, to *cfg.Block) bool {
+			ct := cc.CondTerm(from)
+			if ct == nil || len(from.Succs) != 2 || from.Succs[0] != to {
+				return true
+			}
+			if ct.Op == "!=" && len(ct.Args) == 2 {
+				for i := 0; i < 2; i++ {
+					if ct.Args[i].Op == "nil" && ct.Args[1-i].Op == "var" {
+						if v, ok := ct.Args[1-i].Obj.(*types.Var); ok && types.Identical(v.Type(), types.Universe.Lookup("error").Type()) {
+							return false
+						}
+					}
+				}
+			}
+			return true
+		}
+		res := cc.FindPath(PathQuery{From: Point{pt.B, pt.I + 1}, ExitIsTarget: true, IsBarrier: inval, EdgeOK: errEdge})
+		if res.Found {
+			r.bad(rule, st.Fn.Name, p.Pos(st.Node), "store(fecDecoder.shardSize) invalidates newestShardId", "the group size changes but newestShardId (counted in units of the old size) is kept and stays 'set': after a retune to a larger group at sequence id S every stored shard is discarded at once until the ids reach about S*new/old — the decoder has adopted the sender's ratio but recovers nothing", cc.DescribePath(res.Path))
+		} else {
+			r.ok(rule, st.Fn.Name, p.Pos(st.Node), "store(fecDecoder.shardSize) invalidates newestShardId", "the 'set' flag is cleared (or the value re-stored) on every path after the store")
+		}
+	}
+	if n == 0 {
+		r.ok(rule, dec.Name, p.Pos(dec.Node), "store(fecDecoder.shardSize) invalidates newestShardId", "the group size never changes after construction")
+	}
 }
